@@ -130,8 +130,15 @@ fn opt_variants(quick: bool) -> Vec<OptParams> {
     v
 }
 
-fn build(layout: &Layout, p: &OptParams, tsig_rd: &[u8]) -> Vec<u8> {
-    let mut b = MsgBuilder::new(0x0909, 0x0100).question(&wire::wname("a.t."), t::A, c::IN);
+/// (opcode, question present): the OPT rules hold for every opcode and
+/// whether or not the message carries a question.
+const SHAPES: [(u8, bool); 5] = [(0, true), (2, false), (2, true), (9, false), (0, false)];
+
+fn build(layout: &Layout, p: &OptParams, tsig_rd: &[u8], shape: (u8, bool)) -> Vec<u8> {
+    let mut b = MsgBuilder::new(0x0909, 0x0100 | ((shape.0 as u16) << 11));
+    if shape.1 {
+        b = b.question(&wire::wname("a.t."), t::A, c::IN);
+    }
     let mut undelim_rdlength_at = None;
     for &(sec, k) in layout {
         let sec = sec as usize;
@@ -322,8 +329,8 @@ pub fn run(ctx: Ctx) -> ! {
         let has_a = lay.iter().any(|x| x.1 == Kind::OptA);
         let vs: &[OptParams] = if has_a { &variants } else { &fixed };
         let mut limited = limited_server(&catalog, 1232);
-        for p in vs {
-            let req = build(lay, p, &tsig_rd);
+        for (p, shape) in vs.iter().flat_map(|p| SHAPES.iter().map(move |s| (p, *s))) {
+            let req = build(lay, p, &tsig_rd, shape);
             {
                 l.tick();
                 let (class, v) = evaluate_limited(&mut limited, 1232, &req);
@@ -400,7 +407,7 @@ pub fn run(ctx: Ctx) -> ! {
     ctx.assume("qvlib::wire decoder is correct; the std fixture zone answers a.t. A with data (so 'no answer data' is observable)");
     ctx.finish(
         "exploration",
-        "query a.t. A + every layout of <= 3 records over {AN,NS,AR} x {ordinary, varied OPT, second OPT, undelimitable, TSIG(unknown key)} (sections in order, <= 1 of each pseudo record) x full product of the varied OPT's owner(5) x class x ext-rcode octet x version octet x flags x RDATA(4) x 3 server payload sizes x {UDP,TCP}, and each of these requests twice over UDP to a rate-limited server (second response slipped); plus a valid OPT whose advertised size takes every value 0..=2100 (and 7 larger ones) x 5 queries with 2-3 KB answers x DO bit x 3 server sizes x {UDP,TCP}; oracle = in-order scanner deciding whether an additional-section OPT was reached + C09 statement",
+        "{QUERY, STATUS, opcode 9} x {question a.t. A, no question} + every layout of <= 3 records over {AN,NS,AR} x {ordinary, varied OPT, second OPT, undelimitable, TSIG(unknown key)} (sections in order, <= 1 of each pseudo record) x full product of the varied OPT's owner(5) x class x ext-rcode octet x version octet x flags x RDATA(4) x 3 server payload sizes x {UDP,TCP}, and each of these requests twice over UDP to a rate-limited server (second response slipped); plus a valid OPT whose advertised size takes every value 0..=2100 (and 7 larger ones) x 5 queries with 2-3 KB answers x DO bit x 3 server sizes x {UDP,TCP}; oracle = in-order scanner deciding whether an additional-section OPT was reached + C09 statement",
         true,
     )
 }
